@@ -152,8 +152,14 @@ func (ssc *defaultStatefulSetControl) ListRevisions(set *apps.StatefulSet) ([]*k
 		return nil, err
 	}
 	res := []*kubeapps.ControllerRevision{}
+	// a revision may match both selectors (adopted after an upgrade), list it only once
+	seen := map[string]bool{}
 	for _, item := range append(revisions.Items, revisinsToUpgrade.Items...) {
 		local := item
+		if seen[local.Name] {
+			continue
+		}
+		seen[local.Name] = true
 		res = append(res, &local)
 	}
 	return res, nil
